@@ -12,6 +12,7 @@ func init() { register("C19", checkC19) }
 
 func checkC19(cx *Ctx, r *Report) {
 	w, fx := cx.W, cx.Fx
+	cx.checkRequestNotRewritten(r)
 	// the issuer a reply states is the one derived for this request: the metadata document served is built from this
 	// request's context, not kept from a request that arrived for another host (shared with C11)
 	cx.checkMetadataOfThisRequest(r)
@@ -167,6 +168,43 @@ func checkC19(cx *Ctx, r *Report) {
 			}
 		}
 		r.Check(okFlag, "R-VFG", "NewProvider:insecure-flag", w.FnPos(np), "the issuer factory is called with the provider's insecure flag", "the issuer factory is not called with the provider's insecure flag")
+		// ... and with the flag as the options left it: no option is applied after the factory was called (WithAllowInsecure
+		// would come too late, the issuer would be validated / derived for secure mode)
+		var issuerCalls, optionSites []ssa.CallInstruction
+		isOptionT := func(t types.Type) bool {
+			if sl, ok := t.Underlying().(*types.Slice); ok {
+				t = sl.Elem()
+			}
+			n := namedOf(t)
+			return n != nil && n.Obj().Name() == "Option" && n.Obj().Pkg() != nil && isModulePath(n.Obj().Pkg().Path())
+		}
+		for _, c := range callsIn(np) {
+			switch {
+			case calleeOf(c) == nil && !c.Common().IsInvoke() && isParamIdx(c.Common().Value, 1):
+				issuerCalls = append(issuerCalls, c)
+			case calleeOf(c) == nil && !c.Common().IsInvoke() && isOptionT(c.Common().Value.Type()):
+				optionSites = append(optionSites, c)
+			default:
+				if g := calleeOf(c); g != nil && g.Pkg == np.Pkg {
+					for _, a := range c.Common().Args {
+						if isOptionT(a.Type()) {
+							optionSites = append(optionSites, c)
+						}
+					}
+				}
+			}
+		}
+		late := ""
+		fi := fx.info(np)
+		for _, ic := range issuerCalls {
+			for _, oc := range optionSites {
+				ib, ob := ic.Block(), oc.Block()
+				if ib == ob && instrIndex(oc.(ssa.Instruction)) > instrIndex(ic.(ssa.Instruction)) || ib != ob && fi.reachable(ib, ob) {
+					late = w.InstrPos(oc)
+				}
+			}
+		}
+		r.Check(late == "" && len(optionSites) > 0, "R-ORDER", "NewProvider:options-before-issuer", w.FnPos(np), "every option is applied before the issuer factory is called", "an option is applied after the issuer factory was called ("+late+"), or no option application was found: the factory does not see the insecure flag the options set")
 	}
 
 	// insecure mode is switched on explicitly only: Provider.insecure is written by the closure WithAllowInsecure
